@@ -48,11 +48,14 @@ def gen_cases(rng, tier):
         allv = pos + neg
         thr = [enc(rng.choice(allv) if rng.random() < 0.5 else Fraction(rng.randint(-30, 30), 4)) for _ in range(size)]
         tg = [enc(Fraction(rng.randint(-2, 18), 16)) for _ in range(size)]
+        if k % 7 == 3 and size >= 2:
+            tg[0], tg[-1] = enc(Fraction(0)), enc(Fraction(1))      # both ends of the scale next to interior targets
         pshape = rng.choice([[len(allv)], [1, len(allv)], [len(allv), 1]])
         cases.append({"pos": [enc(x) for x in pos], "neg": [enc(x) for x in neg], "ep": rng.choice([0, 0, 2]),
                       "en": rng.choice([0, 0, 3]), "sc": sc, "ec": ec, "shape": shape, "thr": thr, "targets": tg,
                       "is_sorted": (k % 2 == 0), "pshape": pshape, "order_seed": rng.randint(0, 10 ** 6),
                       "int_dtype": k % 5 == 0 and style == "ints",
+                      "narrow_float": (["f4", "f2"][k % 2] if k % 7 == 3 else None),
                       "groups": ([[rng.choice("ab") for _ in pos], [rng.choice("ab") for _ in neg]] if k % 3 == 1 else None)})
     return cases
 
@@ -65,6 +68,8 @@ def run_impl(case):
     from score_analysis.scores import pointwise_cm
 
     dt = int if case.get("int_dtype") else float
+    if case.get("narrow_float"):
+        dt = {"f4": np.float32, "f2": np.float16}[case["narrow_float"]]      # the generated values are small dyadics: exact
     pos_in = np.array([fl(x) for x in case["pos"]], dtype=dt)
     neg_in = np.array([fl(x) for x in case["neg"]], dtype=dt)
     T = np.array([fl(t) for t in case["thr"]], dtype=float).reshape(case["shape"])
